@@ -44,8 +44,8 @@ fn owned(sys: &Sys, w: usize) -> (i64, i64) {
     let mut z = 0;
     for a in 0..NARCH {
         let n = m.order[a].len() as i64;
-        t += n * (1 + if a >= 14 { 1 } else { 0 });
-        z += n * if a >= 1 { 1 } else { 0 };
+        t += n * tracked_cols(a);
+        z += n * zed_cols(a);
     }
     (t, z)
 }
